@@ -159,7 +159,7 @@ impl Prop for C01 {
         Some("cell-name parser: all 16384 column names x rows {1,2,9,10,99,100,65536,1048576}, upper and lower case; coordinate_to_name inverse".into())
     }
     fn mandatory(&self, _t: Tier) -> Vec<String> {
-        let mut v: Vec<String> = ["cell_name_sweep", "refs:Explicit", "refs:ImplicitCells", "refs:ImplicitAll", "refs:Mixed", "dim:Absent", "dim:Exact", "dim:TooSmall", "dim:TooLarge", "dim:Understated", "elem_prefix", "rel_prefix", "part_name_case", "abs_targets", "whitespace", "extras", "all_stored", "deflated", "shuffled_parts", "bom", "no_xml_decl", "attr_shuffle", "implicit_cell_ref", "implicit_row_ref", "filler_cell", "filler_row", "col>=26", "col>=702", "date1904", "empty_string_cell"]
+        let mut v: Vec<String> = ["cell_name_sweep", "refs:Explicit", "refs:ImplicitCells", "refs:ImplicitAll", "refs:Mixed", "dim:Absent", "dim:Exact", "dim:TooSmall", "dim:TooLarge", "dim:Understated", "elem_prefix", "rel_prefix", "part_name_case", "abs_targets", "whitespace", "extras", "all_stored", "deflated", "shuffled_parts", "bom", "no_xml_decl", "attr_shuffle", "implicit_cell_ref", "implicit_row_ref", "rows_out_of_order", "filler_cell", "filler_row", "col>=26", "col>=702", "date1904", "empty_string_cell"]
             .iter().map(|s| s.to_string()).collect();
         for k in ["num", "bool", "error", "iso_date", "blank", "str:SharedPlain", "str:SharedRich", "str:InlinePlain", "str:InlineRich", "str:StrV"] {
             v.push(format!("cell:{}", k));
@@ -190,7 +190,8 @@ impl Prop for C01 {
                 out.feat("col>=702");
             }
             for k in 0..n_enc {
-                let ch = if k == 0 { XlsxChoices::default() } else { XlsxChoices::random(&mut rng) };
+                let mut ch = if k == 0 { XlsxChoices::default() } else { XlsxChoices::random(&mut rng) };
+                ch.rows_shuffled = k > 0 && rng.chance(1, 5);
                 let enc = xlsx::encode(&book, &ch, &mut rng);
                 let feats = ch.features();
                 for f in &feats {
